@@ -20,7 +20,7 @@ type probeRouter struct {
 	r         *fox.Router
 	got       *served
 	w         *nullWriter
-	inHandler func() // optional: runs inside every handler
+	inHandler func(c fox.Context) // optional: runs inside every handler
 }
 
 // newProbeRouter builds a router whose handlers record what ran.
@@ -34,7 +34,7 @@ func newProbeRouter(opts ...fox.GlobalOption) *probeRouter {
 			p.got.params = collectParams(c)
 			p.got.scope = c.Scope()
 			if p.inHandler != nil {
-				p.inHandler()
+				p.inHandler(c)
 			}
 			c.Writer().WriteHeader(code)
 		}
@@ -59,6 +59,9 @@ func (p *probeRouter) handler() fox.HandlerFunc {
 		p.got.pattern = c.Pattern()
 		p.got.params = collectParams(c)
 		p.got.scope = c.Scope()
+		if p.inHandler != nil {
+			p.inHandler(c)
+		}
 		c.Writer().WriteHeader(200)
 	}
 }
